@@ -230,7 +230,8 @@ func Main(id, tier string, seed int64, self string) int {
 	if par <= 0 {
 		par = runtime.NumCPU()
 	}
-	work := filepath.Join(Root, "work", id)
+	// (two runs of one property at a time must not share their files)
+	work := filepath.Join(Root, "work", fmt.Sprintf("%s-%d", id, os.Getpid()))
 	os.RemoveAll(work)
 	os.MkdirAll(work, 0o755)
 	defer os.RemoveAll(work)
